@@ -92,6 +92,7 @@ func keyOf(name string, tags map[string]string, dims []string, byName bool) grou
 type pipe struct {
 	dims    []string // nil = *
 	star    bool
+	exclude string // with star: one tag that is not a dimension (groupBy(*).exclude())
 	byName  bool
 	script  string
 	alert   bool
@@ -126,8 +127,12 @@ func genPipe(r *core.Rng) pipe {
 	}
 	// regroup right below the source: the last grouping is the effective one (grouping by
 	// measurement, once requested, stays on)
-	if r.Chance(0.25) {
-		switch r.Intn(3) {
+	if r.Chance(0.3) {
+		switch r.Intn(4) {
+		case 3:
+			p.dims, p.star = nil, true
+			p.exclude = r.Pick([]string{"t1", "t2", "t3"})
+			src += "|groupBy(*).exclude('" + p.exclude + "')"
 		case 0:
 			p.dims, p.star = []string{"t1"}, false
 			src += "|groupBy('t1')"
@@ -166,10 +171,16 @@ func genPipe(r *core.Rng) pipe {
 			s += "|eval(lambda: count(), lambda: sigma(\"f1\"), lambda: spread(\"f1\")).as('c', 'sg', 'sp')" + r.Pick([]string{"", ".keep()", ".keep('c', 'f1')"})
 		case "nested":
 			// a lambda variable used inside another lambda keeps its own state
-			if r.Chance(0.5) {
+			switch r.Intn(4) {
+			case 0:
 				s += "|where(lambda: l % 2 == 0)"
-			} else {
+			case 1:
 				s += "|eval(lambda: l, lambda: sg).as('c', 's').keep()"
+			case 2:
+				// two levels of references
+				s += "|where(lambda: l2 % 20 == 0)"
+			default:
+				s += "|eval(lambda: l2 + 0, lambda: sg2).as('c', 's').keep()"
 			}
 		case "stateCount":
 			s += "|stateCount(lambda: \"f1\" > 1.0)"
@@ -218,8 +229,8 @@ func genPipe(r *core.Rng) pipe {
 			s += "|alert().crit(lambda: \"f1\" > 1.5).warn(lambda: \"f1\" > 1.0)" + r.Pick([]string{"", ".stateChangesOnly()", ".history(4).flapping(0.2, 0.6)", ".noRecoveries()"}) + ".levelField('lvl').durationField('dur').idField('aid').topic('t')"
 		}
 	}
-	p.script = "var l = lambda: count()\nvar sg = lambda: sigma(\"f1\")\n" + s + "|log().prefix('S')"
-	p.shape = strings.Join(shape, ">") + fmt.Sprintf("|dims=%v*%v|byName=%v", p.dims, p.star, p.byName)
+	p.script = "var l = lambda: count()\nvar sg = lambda: sigma(\"f1\")\nvar l2 = lambda: l * 10\nvar sg2 = lambda: sg + 1.0\n" + s + "|log().prefix('S')"
+	p.shape = strings.Join(shape, ">") + fmt.Sprintf("|dims=%v*%v-%s|byName=%v", p.dims, p.star, p.exclude, p.byName)
 	return p
 }
 
@@ -362,7 +373,9 @@ func inDims(p pipe, pt inPoint) []string {
 	}
 	ks := make([]string, 0, len(pt.tags))
 	for k := range pt.tags {
-		ks = append(ks, k)
+		if k != p.exclude {
+			ks = append(ks, k)
+		}
 	}
 	sort.Strings(ks)
 	return ks
